@@ -100,7 +100,8 @@ def check_vector(v, dt, ids, acc, case, order, full):
         reqs += list(itertools.product(REQ, repeat=k))
     # long request lists and ids far outside the range of the vector (other code paths of the
     # membership test)
-    reqs += [(10 ** 6,), (0, 10 ** 6), (2, 10 ** 6, 0), tuple(range(30)), tuple(range(29, -1, -1)) + (10 ** 6,),
+    reqs += [(-1,), (0, -1), (-3, 5, -1),            # an unknown id may be negative
+             (10 ** 6,), (0, 10 ** 6), (2, 10 ** 6, 0), tuple(range(30)), tuple(range(29, -1, -1)) + (10 ** 6,),
              (0, 10 ** 6) + tuple(range(40, 62)), (5, 2) + tuple(range(100, 125)) + (10 ** 6,),
              tuple(range(300, 330)) + (present[0],) if present else (7,)]
     for req in reqs:
